@@ -52,9 +52,9 @@ def run(report, index, tier):
     r024(report, index, E, M)
     report.not_decided.append(
         'the regex/division re-lexing of `/` in the output (C05); '
-        'walker.walk semantics (trusted, digest-guarded)')
+        'walker.walk on rule sequences longer than those R02.7 evaluates')
     report.trusted_base += [
-        'transcription of walker.process_layouts (digest-guarded)',
+        'the abstract evaluator (walker.walk / process_layouts / the Token classes are evaluated from their source, not transcribed)',
         'regex front end of CPython (re._parser)', 'transcription of '
         'ply.lex rule ordering', 'ES5 7.8.3 / 7.9.1 facts']
 
